@@ -92,14 +92,15 @@ theorem c06_varint_minimal_values :
   simp [byteLenS, magS, byteLenU]
 
 /-- peek = read: whenever the consuming read `load_X` returns a value, the non-consuming `preload_X`
-on the same slice returns the same value and leaves the slice unchanged — for every kind except
-`address` (see `c06_preload_eq_load_addr`).
+on the same slice returns the same value and leaves the slice unchanged — for every kind: uint, int,
+var-uint, var-int, coins, bit, bits, bytes, string, ref, maybe-ref, dict and address (`preload_address`
+has its own parsing logic for none / extern / std-without-anycast and re-reads a copy for anycast).
 
 The design's formulation `preload_X s = (load_X s).map fst` for ALL slices is false for the
 library: on an over-read `load_uint` raises while `preload_uint` returns the value of the bits that
 are left (`c06_preload_overread_differs` below); the property only speaks of what the consuming read
 would RETURN. -/
-theorem c06_preload_eq_load (k : Kind) (hk : k ≠ .addr) (s s' : Slice R) (v : TVal R)
+theorem c06_preload_eq_load (k : Kind) (s s' : Slice R) (v : TVal R)
     (h : k.load s = (s', some v)) : k.preload s = (s, some v) := by
   cases k with
   | uint n => obtain ⟨a, h1, rfl⟩ := map_some_inv h; exact map_of_some _ (preloadUint_of_load h1)
@@ -114,7 +115,7 @@ theorem c06_preload_eq_load (k : Kind) (hk : k ≠ .addr) (s s' : Slice R) (v : 
   | ref => obtain ⟨a, h1, rfl⟩ := map_some_inv h; exact map_of_some _ (preloadRef_of_load h1)
   | maybeRef => obtain ⟨a, h1, rfl⟩ := map_some_inv h; exact map_of_some _ (preloadMaybeRef_of_load h1)
   | dict => obtain ⟨a, h1, rfl⟩ := map_some_inv h; exact map_of_some _ (preloadDict_of_load h1)
-  | addr => exact absurd rfl hk
+  | addr => obtain ⟨a, h1, rfl⟩ := map_some_inv h; exact map_of_some _ (preloadAddress_of_load h1)
 
 /-- the converse direction fails in the library as it is: with 3 bits left `load_uint(10)` raises but
 `preload_uint(10)` returns 5. -/
